@@ -1234,6 +1234,13 @@ namespace awkward {
       return current_error_;
     }
 
+    if (recursion_current_depth_ == recursion_max_depth_) {
+      // like a word called by the program: the return stack has
+      // recursion_max_depth_ slots
+      current_error_ = util::ForthError::recursion_depth_exceeded;
+      return current_error_;
+    }
+
     recursion_target_depth_.push(recursion_current_depth_);
     bytecodes_pointer_push(dictionary_bytecodes_[(IndexTypeOf<int64_t>)index] - BOUND_DICTIONARY);
 
